@@ -4,3 +4,7 @@ func init() {
 	props["C14"] = []Stream{{"header", genHeader}, {"merge", genMerge}}
 	props["C02"] = []Stream{{"merge", genMerge}, {"c02-oracle", genC02Oracle}}
 }
+
+func init() {
+	props["C19"] = []Stream{{"strategy", genStrat}}
+}
